@@ -133,6 +133,69 @@ fn isolated(html: &[u8], cfg: &Cfg, width: usize, secs: u64, clone: bool) -> Str
     }
 }
 
+/// does some style sheet of the case hold a selector with two or more descendant steps, and is the document nested deeply?
+fn selector_backtracking(c: &Case) -> bool {
+    let mut sheets: Vec<String> = Vec::new();
+    if let Some(s) = &c.cfg.user_css {
+        sheets.push(s.clone());
+    }
+    if let Some(s) = &c.cfg.agent_css {
+        sheets.push(s.clone());
+    }
+    let html = String::from_utf8_lossy(&c.html).to_string();
+    if c.cfg.use_doc_css {
+        let mut rest = html.as_str();
+        while let Some(i) = rest.find("<style") {
+            let t = &rest[i..];
+            let j = t.find("</style").unwrap_or(t.len());
+            sheets.push(t[..j].to_string());
+            rest = &t[j..];
+        }
+    }
+    let deep_steps = sheets.iter().any(|sh| {
+        // strip comments
+        let mut t = String::new();
+        let mut r = sh.as_str();
+        while let Some(i) = r.find("/*") {
+            t.push_str(&r[..i]);
+            t.push(' ');
+            r = match r[i + 2..].find("*/") { Some(j) => &r[i + 2 + j + 2..], None => "" };
+        }
+        t.push_str(r);
+        t.split('{').any(|part| {
+            let sel = part.rsplit('}').next().unwrap_or("");
+            sel.split(',').any(|one| {
+                let spaced = one.replace('>', " > ");
+                let toks: Vec<&str> = spaced.split_whitespace().collect();
+                let mut steps = 0;
+                for w in toks.windows(2) {
+                    if w[0] != ">" && w[1] != ">" {
+                        steps += 1;
+                    }
+                }
+                steps >= 2
+            })
+        })
+    });
+    // nesting depth: the longest run of open tags without a close tag in between is a cheap lower bound
+    let mut depth = 0usize;
+    let mut best = 0usize;
+    let b = html.as_bytes();
+    let mut i = 0;
+    while i + 1 < b.len() {
+        if b[i] == b'<' {
+            if b[i + 1] == b'/' {
+                depth = depth.saturating_sub(1);
+            } else if b[i + 1].is_ascii_alphabetic() {
+                depth += 1;
+                best = best.max(depth);
+            }
+        }
+        i += 1;
+    }
+    deep_steps && best >= 200
+}
+
 impl Prop for C01 {
     fn id(&self) -> &'static str {
         "C01"
@@ -194,6 +257,9 @@ impl Prop for C01 {
         match o {
             Obs::Ok(_) | Obs::Narrow => {}
             Obs::CssErr if css => {}
+            // known finding: descendant combinators backtrack without memoisation — Θ(depth^k) for k descendant steps; a
+            // sheet with two or more of them over a document nested hundreds of levels deep needs minutes
+            Obs::Hang(_) if selector_backtracking(c) => out.push(known(format!("no result within the watchdog: descendant-combinator backtracking over deep nesting (width {}, config {})", c.width, c.cfg.describe()), "C01-selector-backtracking")),
             x => out.push(viol(format!("rendering is not total: {} (width {}, config {})", x.short(), c.width, c.cfg.describe()))),
         }
         out
@@ -205,8 +271,11 @@ impl Prop for C01 {
         true
     }
     fn known_disagreement(&self, c: &Case, imp: &Obs, model: &Obs) -> Option<&'static str> {
-        // enormous widths: the model pads/allocates nothing, but it also cannot run out of memory; both must still agree
-        let _ = (c, imp, model);
+        // the model's matcher is linear in the chain; the implementation's backtracks (known finding)
+        let _ = model;
+        if matches!(imp, Obs::Hang(_)) && selector_backtracking(c) {
+            return Some("C01-selector-backtracking");
+        }
         None
     }
     fn timeout(&self) -> u64 {
